@@ -424,3 +424,113 @@ def array_ops(h):
                         if not close(float(r[i]), s.GetValue(), 1e-12) or r.GetQuantity() != s.GetQuantity():
                             return {"reproduced": True, "call": call + " element %d" % i, "observed": [float(r[i]), repr(r.GetQuantity())], "expected": [s.GetValue(), repr(s.GetQuantity())]}
     return {"reproduced": False}
+
+
+# ------------------------------------------------------------------------------------------------
+# database lookups and conversions (C01/C02/C05/C16): independent oracle over a pool of real names
+
+
+def _legacy_pairs(db):
+    from barril.units.unit_database import _LEGACY_TO_CURRENT
+
+    out = []
+    for legacy, current in _LEGACY_TO_CURRENT:
+        for u in db.unit_to_unit_info:
+            if current in u:
+                l = u.replace(current, legacy)
+                if l != u and l not in db.unit_to_unit_info:
+                    out.append((l, u))
+                    break
+    return out
+
+
+@probe("db_lookup")
+def db_lookup(h):
+    """GetInfo / Convert / CheckCategoryUnit against the registry read directly"""
+    import numpy
+    from barril.units.unit_database import UnitDatabase, InvalidUnitError, InvalidQuantityTypeError
+
+    db = UnitDatabase.GetSingleton()
+    U = db.unit_to_unit_info
+    units = ["m", "cm", "ft", "km", "degC", "K", "degF", "s", "min", "psi", "Pa", "lbmol", "Mm3", "N.s/m", "m3/d", "<unknown>"]
+    units = [u for u in units if u in U]
+    legs = _legacy_pairs(db)[:12]
+    names = units + [l for l, _ in legs] + ["no-such-unit"]
+    qts = ["length", "temperature", "time", "pressure", "amount of substance", "volume", "depth", "Unknown", "no-such-type"]
+
+    def resolve(qt, u):
+        """the unit GetInfo(qt, u, fix_unknown=True) must resolve to, or an exception class"""
+        real_qt = db.categories_to_quantity_types[qt].quantity_type if qt in db.categories_to_quantity_types else qt
+        if u in U and U[u].quantity_type in (qt, real_qt):
+            return u
+        if real_qt not in db.quantity_types:
+            return InvalidQuantityTypeError
+        if real_qt == "Unknown":
+            return "<unknown>"
+        for l, cur in legs:
+            if l == u and U[cur].quantity_type == real_qt:
+                return cur
+        from barril.units.unit_database import FixUnitIfIsLegacy
+
+        is_l, fixed = FixUnitIfIsLegacy(u)
+        if is_l and fixed in U and U[fixed].quantity_type == real_qt:
+            return fixed
+        return InvalidUnitError
+
+    for qt in qts:
+        for u in names:
+            exp = resolve(qt, u)
+            call = "GetInfo(%r, %r, fix_unknown=True)" % (qt, u)
+            try:
+                got = db.GetInfo(qt, u, fix_unknown=True).unit
+            except Exception as e:
+                got = type(e)
+            if isinstance(exp, type) and isinstance(got, type) and issubclass(got, exp):
+                continue
+            if got != exp:
+                return {"reproduced": True, "call": call, "observed": getattr(got, "__name__", got), "expected": getattr(exp, "__name__", exp)}
+    xs = [0.0, 1.0, -2.5, 37.3, 1e6]
+    for qt in qts:
+        for u in names:
+            for v in names:
+                ru, rv = resolve(qt, u), resolve(qt, v)
+                for x in (xs[3], list(xs), tuple(xs), numpy.array(xs)):
+                    call = "Convert(%r, %r, %r, %r)" % (qt, u, v, x)
+                    try:
+                        got = db.Convert(qt, u, v, x)
+                    except Exception as e:
+                        got = e
+                    if u == v:
+                        if got is not x:
+                            return {"reproduced": True, "call": call, "observed": repr(got), "expected": "the argument itself (same unit)"}
+                        continue
+                    bad = [r for r in (ru, rv) if isinstance(r, type)]
+                    if bad:
+                        if not isinstance(got, Exception):
+                            return {"reproduced": True, "call": call, "observed": repr(got), "expected": bad[0].__name__}
+                        continue
+                    if isinstance(got, Exception):
+                        return {"reproduced": True, "call": call, "observed": repr(got), "expected": "a converted value"}
+                    f = lambda t: U[rv].frombase(U[ru].tobase(t))
+                    if isinstance(x, float):
+                        ok = got == f(x)
+                    elif isinstance(x, numpy.ndarray):
+                        ok = isinstance(got, numpy.ndarray) and len(got) == len(x) and all(a == f(b) for a, b in zip(got, x))
+                    else:
+                        ok = type(got) is type(x) and len(got) == len(x) and all(a == f(b) for a, b in zip(got, x))
+                    if not ok:
+                        return {"reproduced": True, "call": call, "observed": repr(got), "expected": "frombase_%s(tobase_%s(x)) elementwise, same container kind" % (rv, ru)}
+    cats = [c for c in ("length", "depth", "temperature", "time", "volume") if c in db.categories_to_quantity_types]
+    for c in cats:
+        for u in names:
+            qt = db.categories_to_quantity_types[c].quantity_type
+            valid = u in U and U[u].quantity_type == qt
+            for _ in range(2):  # miss path, then memo-hit path
+                try:
+                    db.CheckCategoryUnit(c, u)
+                    got = True
+                except InvalidUnitError:
+                    got = False
+                if got != valid:
+                    return {"reproduced": True, "call": "CheckCategoryUnit(%r, %r)" % (c, u), "observed": got, "expected": valid}
+    return {"reproduced": False}
